@@ -79,6 +79,7 @@ def wellformed(ctx, *args):
     rngs = _ranges_from_dsl(tid)
     kinds = {sl.name: sl.kind for sl in slots if sl.kind != "pick"}
     num = {}
+    empty = []
     for name, kind in kinds.items():
         sym = k.syms[name]
         v = sym.str_value
@@ -92,6 +93,7 @@ def wellformed(ctx, *args):
             # allowed only when nothing provides a value: no user value in effect and no default applies
             if sym.config_string and any(K.expr_value(c) for _, c in sym.defaults):
                 return False
+            empty.append(name)
             continue
         try:
             x = _num(kind, v)
@@ -123,6 +125,12 @@ def wellformed(ctx, *args):
     hdr = O.read_header(outs["header"])
     cm, _ = O.read_cmake(outs["cmake"])
     js = outs["json"]
+    for name in empty:
+        # "empty when nothing provides a value": every generator shows it empty (no stray prefix, no exception)
+        if not k.syms[name].config_string:
+            continue
+        if hdr.get(name, "") != "" or cm.get(name, "") != "" or js.get(name) is not None:
+            return False
     for name, x in num.items():
         kind = kinds[name]
         if not k.syms[name].config_string:
@@ -144,11 +152,11 @@ def jobs(tier, seed, excluded=()):
     rng = random.Random(seed)
     if tier == "quick":
         dom = Dom(int_max=2000, str_mode="cand", str_cands=["p"])
-        trees = ["T03", "T04", "T06", "T11", "E_range_bound", "E_range_bound_dep", "E_setdef_range", "E_range_cond", "E_hexfloat", "E_set_val_int"]
+        trees = ["T03", "T04", "T06", "T11", "E_range_bound", "E_range_bound_dep", "E_setdef_range", "E_range_cond", "E_hexfloat", "E_set_val_int", "E_sync_empty"]
         budget, nparts, tmo = 150, 2, 100
     else:
         dom = Dom(int_max=1000000, str_mode="cand", str_cands=["p", ""])
-        trees = ["T03", "T04", "T06", "T09", "T11", "T14", "T15", "E_range_bound", "E_range_bound_dep", "E_setdef_range", "E_range_cond", "E_hexfloat", "E_set_val_int", "E_default_val", "F:kconfserver/Kconfig"]
+        trees = ["T03", "T04", "T06", "T09", "T11", "T14", "T15", "E_range_bound", "E_range_bound_dep", "E_setdef_range", "E_range_cond", "E_hexfloat", "E_set_val_int", "E_default_val", "E_sync_empty", "F:kconfserver/Kconfig"]
         budget, nparts, tmo = 250, 4, 200
     out = []
     for door in ("api", "file"):
